@@ -97,6 +97,10 @@ type progOpts struct {
 	taint      bool
 	directives bool
 	scope      bool // C02: small name pool (shadowing), scope probes, aliases, attribute-style params, more data="all"/data="$e"
+	// options added for C09 (all off by default; none consumes randomness when off)
+	ij          bool                  // some prints read the injected data: {$ij.s}, {$ij.n}
+	customFunc  string                // name of a user-installed int -> int function to call now and then
+	onTemplates func(ts []*gtemplate) // receives the generated templates (params of every template, not only the entry)
 }
 
 type progGen struct {
@@ -203,6 +207,14 @@ func (g *progGen) expr(env genv, k kind, d int) string {
 	e := func(k2 kind) string { return g.expr(env, k2, d-1) }
 	switch k {
 	case kInt:
+		if g.o.customFunc != "" && g.r.Chance(12) {
+			g.feat("custom-func")
+			return g.o.customFunc + "(" + e(kInt) + ")"
+		}
+		if g.o.ij && g.r.Chance(8) {
+			g.feat("ij")
+			return "$ij.n"
+		}
 		switch g.r.Intn(16) {
 		case 0, 1:
 			g.feat("add")
@@ -258,6 +270,10 @@ func (g *progGen) expr(env genv, k kind, d int) string {
 			return g.intLit()
 		}
 	case kStr:
+		if g.o.ij && g.r.Chance(10) {
+			g.feat("ij")
+			return g.r.Pick([]string{"$ij.s", "$ij.rec.b", "$ij?.s"})
+		}
 		switch g.r.Intn(8) {
 		case 0, 1:
 			g.feat("concat")
@@ -925,6 +941,9 @@ func genBundle(r *hx.Rand, o progOpts) (files []srcFile, entry string, dataSets 
 		}
 	}
 	entry = g.tmpls[0].full()
+	if o.onTemplates != nil {
+		o.onTemplates(g.tmpls)
+	}
 	for k := 0; k < 2; k++ {
 		dataSets = append(dataSets, genData(r, g.tmpls[0].params, o))
 	}
